@@ -202,17 +202,20 @@ fn build_binary_op(
             let field_ty = &field.field.ty;
             let lhs = with_ref(&member(quote!(self), field), lhs_is_ref);
             let rhs = with_ref(&member(quote!(__rhs), field), rhs_is_ref);
-            let lhs_ty = with_ref(field_ty, lhs_is_ref);
-            let rhs_ty = with_ref(field_ty, rhs_is_ref);
+            let lhs_ty = with_ref_ty(field_ty, lhs_is_ref);
+            let rhs_ty = with_ref_ty(field_ty, rhs_is_ref);
             values.push(quote!(<#lhs_ty as #trait_<#rhs_ty>>::#func_name(#lhs, #rhs)));
             field.push_bounds_to(use_bounds, kind, &mut wcb);
         }
         let ctor_args = build_ctor_args(&item.fields, &values);
-        let wheres = wcb.build(|ty| match (lhs_is_ref, rhs_is_ref) {
-            (true, true) => quote!(for<'__a> &'__a #ty : #trait_<&'__a #ty, Output = #ty>),
-            (true, false) => quote!(for<'__a> &'__a #ty : #trait_<#ty, Output = #ty>),
-            (false, true) => quote!(for<'__a> #ty : #trait_<&'__a #ty, Output = #ty>),
-            (false, false) => quote!(#ty : #trait_<#ty, Output = #ty>),
+        let wheres = wcb.build(|ty| {
+            let r = ref_target(ty);
+            match (lhs_is_ref, rhs_is_ref) {
+                (true, true) => quote!(for<'__a> &'__a #r : #trait_<&'__a #r, Output = #ty>),
+                (true, false) => quote!(for<'__a> &'__a #r : #trait_<#ty, Output = #ty>),
+                (false, true) => quote!(for<'__a> #ty : #trait_<&'__a #r, Output = #ty>),
+                (false, false) => quote!(#ty : #trait_<#ty, Output = #ty>),
+            }
         });
         quote! {
             #[automatically_derived]
@@ -256,13 +259,16 @@ fn build_assign_op(
             let field_ty = &field.field.ty;
             let lhs = member(quote!(self), field);
             let rhs = with_ref(&member(quote!(__rhs), field), rhs_is_ref);
-            let rhs_ty = with_ref(field_ty, rhs_is_ref);
+            let rhs_ty = with_ref_ty(field_ty, rhs_is_ref);
             exprs.push(quote!(<#field_ty as #trait_<#rhs_ty>>::#func_name(&mut #lhs, #rhs)));
             field.push_bounds_to(use_bounds, kind, &mut wcb);
         }
-        let wheres = wcb.build(|ty| match rhs_is_ref {
-            true => parse_quote!(for<'__a> #ty : #trait_<&'__a #ty>),
-            false => parse_quote!(#ty : #trait_<#ty>),
+        let wheres = wcb.build(|ty| {
+            let r = ref_target(ty);
+            match rhs_is_ref {
+                true => parse_quote!(for<'__a> #ty : #trait_<&'__a #r>),
+                false => parse_quote!(#ty : #trait_<#ty>),
+            }
         });
         quote! {
             #[automatically_derived]
@@ -302,14 +308,17 @@ fn build_unary_op(
         for field in fields {
             let field_ty = &field.field.ty;
             let lhs = with_ref(&member(quote!(self), field), lhs_is_ref);
-            let lhs_ty = with_ref(field_ty, lhs_is_ref);
+            let lhs_ty = with_ref_ty(field_ty, lhs_is_ref);
             values.push(quote!(<#lhs_ty as #trait_>::#func_name(#lhs)));
             field.push_bounds_to(use_bounds, kind, &mut wcb);
         }
         let ctor_args = build_ctor_args(&item.fields, &values);
-        let wheres = wcb.build(|ty| match lhs_is_ref {
-            true => quote!(for<'__a> &'__a #ty : #trait_<Output = #ty>),
-            false => quote!(#ty : #trait_<Output = #ty>),
+        let wheres = wcb.build(|ty| {
+            let r = ref_target(ty);
+            match lhs_is_ref {
+                true => quote!(for<'__a> &'__a #r : #trait_<Output = #ty>),
+                false => quote!(#ty : #trait_<Output = #ty>),
+            }
         });
         quote! {
             #[automatically_derived]
@@ -838,6 +847,22 @@ fn with_ref(source: &impl ToTokens, is_ref: bool) -> TokenStream {
         quote!(&#source)
     } else {
         quote!(#source)
+    }
+}
+/// The tokens of `ty` for use right after `&`, `&'a` or `&mut`:
+/// a trait object with several bounds needs parentheses there (`&(dyn A + B)`).
+fn ref_target(ty: &Type) -> TokenStream {
+    match ty {
+        Type::TraitObject(t) if t.bounds.len() > 1 => quote!((#ty)),
+        _ => quote!(#ty),
+    }
+}
+fn with_ref_ty(ty: &Type, is_ref: bool) -> TokenStream {
+    if is_ref {
+        let ty = ref_target(ty);
+        quote!(&#ty)
+    } else {
+        quote!(#ty)
     }
 }
 fn build_ctor_args(fields: &Fields, values: &[impl ToTokens]) -> TokenStream {
